@@ -240,9 +240,16 @@ static void check_dataset(const std::string & root, const std::string & ds)
       prev_e1 = e1;
     }
     // full shot: two electrons with exactly those kinetic energies and the sampled opening angle
-    for (uint64_t ph = 1; ph <= 12; ph++) {
+    // (12 default streams, then the two energy deviates scripted over tails and interior values: the smallest and largest
+    //  energies the tables can yield, down to fractions of an eV)
+    const double SU[] = {1e-12, 1e-9, 1e-6, 1e-3, 0.5, 1 - 1e-6, 1 - 1e-12};
+    for (uint64_t ph = 1; ph <= 12 + 49; ph++) {
       Seq r1, r2;
       r1.phase = r2.phase = ph;
+      if (ph > 12) {
+        r1.v = {SU[(ph - 13) / 7], SU[(ph - 13) % 7]};
+        r2.v = r1.v;
+      }
       double e1, e2, c12;
       g.shoot_e1_e2(r1, e1, e2);
       g.shoot_cos_theta(r1, e1, e2, c12);
@@ -294,6 +301,16 @@ static void check_dataset(const std::string & root, const std::string & ds)
           if (!(e1 + e2 <= x.qbb + 1e-12)) V(ds + ":rej:sum", ctx + fmt(": e1+e2=%.17g above the dataset maximum %.17g", e1 + e2, x.qbb));
           if (!(e1 >= x.emin - 1e-12 && e1 <= x.emax + 1e-12 && e2 >= x.emin - 1e-12 && e2 <= x.emax + 1e-12)) V(ds + ":rej:range", ctx + fmt(": energies (%.17g, %.17g) outside the sampled range", e1, e2));
           if (r.i % 3 != 0) V(ds + ":rej:draws", ctx + ": deviates consumed not a multiple of 3");
+          else if (r.i >= 3) {
+            // the pair is the proposal of the accepted (= last) trial: E_min + d x (E_max - E_min) on the grid the file
+            // describes by E_min, E_max and the number of samples (pairs beyond the triangle are mirrored)
+            auto val = [&](size_t k) { return k < r.v.size() ? r.v[k] : vx::stream_value(r.phase, k); };
+            double d1 = val(r.i - 3), d2 = val(r.i - 2);
+            if (d1 + d2 > 1.0) { d1 = 1.0 - d1; d2 = 1.0 - d2; }
+            double x1 = x.emin + d1 * (x.emax - x.emin), x2 = x.emin + d2 * (x.emax - x.emin);
+            if (std::fabs(e1 - x1) > 1e-12 * (1 + x1) || std::fabs(e2 - x2) > 1e-12 * (1 + x2))
+              V(ds + ":rej:cell", ctx + fmt(": accepted pair (%.17g, %.17g) is not the point (%.17g, %.17g) selected by the deviates of the accepted trial on the grid [%g, %g]", e1, e2, x1, x2, x.emin, x.emax));
+          }
         }
   } catch (std::exception & e) {
     V(ds + ":rej:init", ds + ": rejection generator does not initialise on an encoder-written dataset: " + e.what());
